@@ -106,8 +106,11 @@ def gen_debounce(rnd, deep):
         for i in range(n):
             items.append([_gap(rnd, pool), SENTINEL if i in pos else names[i % len(names)] + str(i)])
     else:
+        # payload next to the sort key: the arrival index, its negation (equal keys then differ in the OPPOSITE order of arrival, so a
+        # sort that looks beyond the key is visible), or a dict (items that cannot be ordered at all: only key() may be compared)
+        pay = rnd.choice(["idx", "neg", "neg", "dict"])
         for i in range(n):
-            items.append([_gap(rnd, pool), [rnd.randint(0, 4), i]])
+            items.append([_gap(rnd, pool), [rnd.randint(0, 4), i if pay == "idx" else (-i if pay == "neg" else {"i": i})]])
     return {"kind": "debounce", "d": d, "w": w, "items": items, "strings": sentinel_class,
             "t0": rnd.choice([0, 0, 0.5]), "tie_seed": rnd.randint(0, 10**6)}
 
